@@ -1,5 +1,6 @@
 SPECIFICATION Spec
 CONSTANTS MaxLen = 4
 Pieces <- AllPieces
+Bugs <- NoBugs
 INVARIANTS PlainOK TrimOK TextOK Emit
 CHECK_DEADLOCK FALSE
